@@ -275,7 +275,7 @@ class Evaluator:
                     return getattr(recv, m)(*args)
                 except IndexError as err:
                     raise PyRaise("IndexError", str(err))
-            if isinstance(recv, dict) and m in ("get", "keys", "values", "items"):
+            if isinstance(recv, dict) and m in ("get", "keys", "values", "items", "update", "setdefault", "pop", "copy"):
                 return getattr(recv, m)(*args)
             if isinstance(recv, (set, frozenset)) and m in ("union", "add", "update", "intersection", "difference", "discard"):
                 return getattr(recv, m)(*args)
@@ -394,22 +394,30 @@ class Evaluator:
             else:
                 self.block(s.orelse, env)
         elif isinstance(s, ast.While):
+            broken = False
             while self.ev(s.test, env):
                 try:
                     self.block(s.body, env)
                 except _Break:
+                    broken = True
                     break
                 except _Continue:
                     continue
+            if not broken and s.orelse:
+                self.block(s.orelse, env)
         elif isinstance(s, ast.For):
+            broken = False
             for v in self.ev(s.iter, env):
                 self.assign(s.target, v, env)
                 try:
                     self.block(s.body, env)
                 except _Break:
+                    broken = True
                     break
                 except _Continue:
                     continue
+            if not broken and s.orelse:
+                self.block(s.orelse, env)
         elif isinstance(s, ast.FunctionDef):
             # a nested helper: a closure over the current environment (read access to the enclosing variables)
             env[s.name] = self._closure(s, env)
